@@ -1,4 +1,4 @@
 ---- MODULE MC_Wal ----
 EXTENDS Wal
-ViewNoHist == <<segs, synced, plen, durable, open, crashes, logical, lastRead, Len(hist)>>
+ViewNoHist == <<segs, synced, plen, durable, open, crashes, logical, lastRead, head, flushed, trimmed, Len(hist)>>
 ====
